@@ -101,7 +101,7 @@ def trim_value(rng, beyond=True):
     if k < 7:
         return rand_dec(rng, -1, 1, 6)
     if k < 8:
-        t = rand_dec(rng, -0.01, 0.01, 6 + rng.below(2))
+        t = rand_dec(rng, -0.01, 0.01, 6)
         return exp_form(t) if rng.chance(1, 2) else t
     if k < 9:
         return rand_dec(rng, -1, 1, rng.choice([1, 2, 3, 4]))
@@ -187,10 +187,10 @@ def gen_targets(rng, version):
     return out
 
 
-def gen_levels(rng, doc, in_frame=False, beyond=True, l3_beyond=False, l2_ms_beyond=False):
+def gen_levels(rng, doc, in_frame=False, beyond=True, l3_beyond=False, l2_ms_beyond=False, nonhome_trims=False):
     """level nodes of one shot / frame edit"""
     v29 = doc["version"] == "2.0.5"
-    usable = [t["id"] for t in doc["targets"] if t["app"] == "HOME" or not doc["version"].startswith("5")]
+    usable = [t["id"] for t in doc["targets"] if t["app"] == "HOME" or not doc["version"].startswith("5") or nonhome_trims]
     nodes = []
     if rng.chance(9, 10) if not in_frame else rng.chance(2, 3):
         nodes.append(("L1", [unit_value(rng) if rng.chance(1, 2) else rand_dec(rng, 0, 0.003, 6), unit_value(rng), unit_value(rng)]))
@@ -242,7 +242,11 @@ def gen_levels(rng, doc, in_frame=False, beyond=True, l3_beyond=False, l2_ms_bey
     return nodes
 
 
-def gen_doc(rng, max_shots=5, max_dur=6, beyond=True, l3_beyond=False, l2_ms_beyond=False):
+def gen_doc(rng, max_shots=5, max_dur=6, beyond=True, l3_beyond=False, l2_ms_beyond=False, nonhome_trims=False, frame_only=False):
+    """knobs: `l3_beyond` L3 offsets above the 12-bit range (not encodable: an error is expected); the last three
+    reach known deviations of the tool: `l2_ms_beyond` L2 ms-weight trims below -1, `nonhome_trims` (v5) trims that refer
+    to a target display of another application type than HOME, `frame_only` shots without a dynamic-data node of their own
+    whose frame edits carry one"""
     version = rng.choice(["2.0.5", "4.0.2", "4.0.2", "5.0.0", "5.1.0"])
     v29 = version == "2.0.5"
     doc = {"version": version, "version_attr": v29 if rng.chance(9, 10) else not v29}
@@ -303,12 +307,16 @@ def gen_doc(rng, max_shots=5, max_dur=6, beyond=True, l3_beyond=False, l2_ms_bey
         elif k == 1:
             st = pos + rng.below(20)         # gap
         s = {"uid": uid(rng), "start": st, "duration": dur,
-             "levels": gen_levels(rng, doc, False, beyond, l3_beyond, l2_ms_beyond), "frames": []}
+             "levels": gen_levels(rng, doc, False, beyond, l3_beyond, l2_ms_beyond, nonhome_trims), "frames": []}
         if rng.chance(1, 14):
             s["levels"] = []                 # dynamic node present but empty
         for _ in range(rng.choice([0, 0, 0, 1, 1, 2, 3])):
             off = rng.choice([0, dur - 1, dur // 2, dur, dur + 2, rng.below(dur + 1)])
-            s["frames"].append({"offset": off, "levels": gen_levels(rng, doc, True, beyond, l3_beyond, l2_ms_beyond)})
+            s["frames"].append({"offset": off, "levels": gen_levels(rng, doc, True, beyond, l3_beyond, l2_ms_beyond, nonhome_trims)})
+        if frame_only and rng.chance(1, 2):
+            s["levels"] = None               # no dynamic-data node of its own
+            if not s["frames"]:
+                s["frames"].append({"offset": rng.below(dur), "levels": gen_levels(rng, doc, True, beyond, l3_beyond, l2_ms_beyond, nonhome_trims)})
         shots.append(s)
         pos = max(pos, st) + dur
     doc["shots"] = rng.shuffle(shots) if rng.chance(1, 2) else shots
@@ -495,3 +503,75 @@ def describe(doc):
             for nd in (f["levels"] or []):
                 keys.append("edit-node=" + nd[0])
     return keys
+
+
+# ---------------------------------------------------------------------------------------------
+# reader (independent of the tool: xml.etree) — used to put the repository's own sample documents
+# through the specification
+# ---------------------------------------------------------------------------------------------
+
+def from_xml(text):
+    import re
+    import xml.etree.ElementTree as ET
+    root = ET.fromstring(text.encode() if isinstance(text, str) else text)
+    for e in root.iter():
+        e.tag = re.sub(r"^\{[^}]*\}", "", e.tag)
+    doc = {}
+    if root.get("version") is not None:
+        doc["version"], doc["version_attr"] = root.get("version"), True
+    else:
+        doc["version"], doc["version_attr"] = root.find("Version").text, False
+    v29 = doc["version"] == "2.0.5"
+    sep = "," if v29 else " "
+    out = next(root.iter("Output"))
+    txt = lambda n, tag: (n.find(tag).text if n.find(tag) is not None else None)
+    doc["canvas_ar"], doc["image_ar"] = txt(out, "CanvasAspectRatio"), txt(out, "ImageAspectRatio")
+    video = next(out.iter("Video"))
+    l6 = next(video.iter("Level6"), None)
+    doc["level6"] = None if l6 is None else {"maxcll": txt(l6, "MaxCLL") or "0", "maxfall": txt(l6, "MaxFALL") or "0"}
+
+    def prims(n):
+        p = next(n.iter("Primaries"))
+        return (p.find("Red").text.split(sep) + p.find("Green").text.split(sep) + p.find("Blue").text.split(sep)
+                + n.find("WhitePoint").text.split(sep))
+    md = next(video.iter("MasteringDisplay"), None)
+    doc["mastering"] = None if md is None else {"min": txt(md, "MinimumBrightness"), "peak": int(txt(md, "PeakBrightness")), "prim": prims(md)}
+    l254 = next(video.iter("Level254"), None)
+    doc["level254"] = None if l254 is None else (int(txt(l254, "DMMode") or 0), int(txt(l254, "DMVersion") or 2))
+    l11 = next(video.iter("Level11"), None)
+    doc["level11"] = None
+    if l11 is not None and txt(l11, "ContentType") is not None and txt(l11, "IntendedWhitePoint") is not None:
+        doc["level11"] = (int(txt(l11, "ContentType")), int(txt(l11, "IntendedWhitePoint")))
+    doc["targets"] = [{"id": int(txt(t, "ID")), "peak": int(txt(t, "PeakBrightness")), "min": txt(t, "MinimumBrightness"),
+                       "prim": prims(t), "app": txt(t, "ApplicationType") or "HOME"} for t in video.iter("TargetDisplay")]
+
+    def levels(n):
+        dyn = next(n.iter("PluginNode" if v29 else "DVDynamicData"), None)
+        if dyn is None:
+            return None
+        nodes = []
+        for ln in dyn:
+            lv = ln.get("level")
+            if lv == "1":
+                nodes.append(("L1", txt(ln, "ImageCharacter").split(sep)))
+            elif lv == "2":
+                nodes.append(("L2", int(txt(ln, "TID")), txt(ln, "Trim").split(sep)))
+            elif lv == "3":
+                nodes.append(("L3", txt(ln, "L1Offset").split(sep)))
+            elif lv == "5":
+                nodes.append(("L5", txt(ln, "AspectRatios").split(sep)))
+            elif lv == "8":
+                nodes.append(("L8", int(txt(ln, "TID")), txt(ln, "L8Trim").split(sep), txt(ln, "MidContrastBias"),
+                              txt(ln, "HighlightClipping"), txt(ln, "SaturationVectorField").split(sep),
+                              txt(ln, "HueVectorField").split(sep)))
+            elif lv == "9":
+                nodes.append(("L9", txt(ln, "SourceColorPrimary").split(sep)))
+        return nodes
+    doc["shots"] = []
+    for s in video.iter("Shot"):
+        rec = s.find("Record")
+        frames = [{"offset": int(txt(f, "EditOffset")), "levels": levels(f)} for f in s.findall("Frame")]
+        own = s.find("PluginNode")
+        doc["shots"].append({"uid": txt(s, "UniqueID"), "start": int(txt(rec, "In")), "duration": int(txt(rec, "Duration")),
+                             "levels": levels(own) if own is not None else None, "frames": frames})
+    return doc
